@@ -110,6 +110,10 @@ ListDied(sn, js)  == LET F == {f \in SeqToSet(sn.faults) : f.list \in js} IN
 FaultLabel(f, nat) == LET ap == f.applied /\ nat = "ok" IN
                       IF f.die THEN (IF ap THEN "DiedApplied" ELSE "Died")
                       ELSE IF ap THEN f.kind \o "Applied" ELSE f.kind
+\* a fault may come with the informer dropping an object from its cache at that very moment ("set", or "pod": the pod the
+\* failing call is about) - a delete event overtaking the reconcile
+EvictOf(f) == IF "evict" \in DOMAIN f THEN f.evict ELSE ""
+EvictAt(sn, pos, what) == \E f \in FaultAt(sn, pos) : EvictOf(f) = what
 \* the result of the call at absolute position pos whose natural result is nat
 ResultAt(sn, pos, nat) == IF FaultAt(sn, pos) # {} THEN FaultLabel(CHOOSE f \in FaultAt(sn, pos) : TRUE, nat) ELSE nat
 At(sn, pos, c) == WithResult(c, ResultAt(sn, pos, c[6]))
@@ -408,6 +412,9 @@ RunPods(sn, todo, base, done, claimFailed, tries) ==
        ELSE IF IsDied(c) THEN [calls |-> Append(done, c), bad |-> TRUE]
        ELSE IF IsOK(c) THEN RunPods(sn, Tail(todo), base + 1, Append(done, c), claimFailed, 1)
        ELSE IF IsPVC(c) THEN RunPods(sn, Tail(todo), base + 1, Append(done, c), TRUE, 1)
+       ELSE IF c[1] = "update" /\ c[2] = "pods" /\ IsConflict(c) /\ tries < 4 /\ EvictAt(sn, base + 1, "pod") THEN
+            \* the pod cannot be read again from the cache: the same update is sent again (nothing else is redone)
+            RunPods(sn, todo, base + 1, Append(done, c), FALSE, tries + 1)
        ELSE IF c[1] = "update" /\ c[2] = "pods" /\ IsConflict(c) /\ tries < 4 THEN
             \* the retry runs the whole closure again: claims this attempt created are still missing from the claim
             \* cache, are created again, answer AlreadyExists, and that fails the update for good
